@@ -279,10 +279,8 @@ theorem applyRes_neutral (cfg : Cfg) (pol : Policy) (step : Nat) (tickEv : Ev) (
     · apply neutral_of
       intro c hc; simp only [List.mem_singleton] at hc; subst hc
       exact ⟨by intro s i o w; simp, by intro s i o w; simp⟩
-    · apply neutral_of
-      intro c hc; simp only [List.mem_singleton] at hc; subst hc
-      exact ⟨by intro s i o w; simp, by intro s i o w; simp⟩
-    · split
+    all_goals
+      split
       · split
         · apply neutral_of
           intro c hc; simp only [List.mem_singleton] at hc; subst hc
